@@ -171,6 +171,16 @@ fn build_add(lhs: &AstNode, rhs: &AstNode) -> Result<Evaluator> {
   }))
 }
 
+/// Text of an operand in a diagnostic message. The history a null operand carries is not repeated,
+/// it would double the length of the message with every operation applied to the result.
+fn operand_text(value: &Value) -> String {
+  if value.is_null() {
+    "null".to_string()
+  } else {
+    value.to_string()
+  }
+}
+
 /// Builds evaluator of temporal expression after `@` (at) literal.
 fn build_at(text: &str) -> Result<Evaluator> {
   if let Ok(date) = FeelDate::try_from(text) {
@@ -449,9 +459,9 @@ fn build_div(lhs: &AstNode, rhs: &AstNode) -> Result<Evaluator> {
             Value::Number(lh / rh)
           }
         }
-        _ => value_null!("[division] incompatible types: {} / {}", lhv, rhv),
+        _ => value_null!("[division] incompatible types: {} / {}", operand_text(&lhv), operand_text(&rhv)),
       },
-      _ => value_null!("[division] incompatible types: {} / {}", lhv, rhv),
+      _ => value_null!("[division] incompatible types: {} / {}", operand_text(&lhv), operand_text(&rhv)),
     }
   }))
 }
@@ -1217,10 +1227,10 @@ fn build_mul(lhs: &AstNode, rhs: &AstNode) -> Result<Evaluator> {
     match lhv {
       Value::Number(lh) => match rhv {
         Value::Number(rh) => Value::Number(lh * rh),
-        _ => value_null!("[multiplication] incompatible types: {} * {}", lhv, rhv),
+        _ => value_null!("[multiplication] incompatible types: {} * {}", operand_text(&lhv), operand_text(&rhv)),
       },
       value @ Value::Null(_) => value,
-      _ => value_null!("[multiplication] incompatible types: {} * {}", lhv, rhv),
+      _ => value_null!("[multiplication] incompatible types: {} * {}", operand_text(&lhv), operand_text(&rhv)),
     }
   }))
 }
@@ -1661,7 +1671,7 @@ fn build_sub(lhs: &AstNode, rhs: &AstNode) -> Result<Evaluator> {
       _ => {}
     }
     //TODO make a macro for incompatible types
-    value_null!("[subtraction] incompatible types: {} - {}", lhv as Value, rhv as Value)
+    value_null!("[subtraction] incompatible types: {} - {}", operand_text(&lhv), operand_text(&rhv))
   }))
 }
 
